@@ -57,9 +57,10 @@ def S(v):
 
 
 def mk(cid, names, body, pre=None, budget=400, family='', subs=(),
-       types=(), head=(), **kw):
+       types=(), head=(), subs_first=False, **kw):
     pro, desc = inputs(*names)
-    prog = Prog(list(head) + pro + list(body), subs=subs, types=types)
+    prog = Prog(list(head) + pro + list(body), subs=subs, types=types,
+                subs_first=subs_first)
     return register(Cell(cid, prog, desc, pre=pre, budget=budget,
                          family=family, **kw))
 
@@ -147,6 +148,32 @@ mk('if_single', ['a%'],
    [('if1', var('a%'), [P(S('t'))], [P(S('f'))]),
     ('if1', B('>', var('a%'), I(5)), [P(S('big'))], None),
     P(S('done'))], family='control')
+# ELSEIF conditions that a compiler pass replaces as a whole node: a bare
+# FUNCTION call, a bare CONST, a constant expression; errors inside them
+mk('if_elseif_call_const', ['a%', 'b%'],
+   [('const', 'K%', I(0)),
+    ('if', [(B('=', var('a%'), I(1)), [P(S('one'))]),
+            (('call', 'big%', [B('\\', var('a%'), var('b%'))]),
+             [P(S('big'))]),
+            (var('K%'), [P(S('const'))]),
+            (B('-', I(2), I(2)), [P(S('zero'))]),
+            (B('>', var('b%'), I(3)), [P(S('b>3'))])],
+     [P(S('else'))]),
+    P(S('done'))],
+   subs=[Sub('big%', 'function', [('x%', None)],
+             [('setret', B('>', var('x%'), I(9)))])],
+   family='control', pre='-2 <= x1 <= 5')
+mk('if_elseif_call_noelse', ['a%', 'b%'],
+   [('if', [(B('=', var('a%'), I(1)), [P(S('one'))]),
+            (('call', 'big%', [B('\\', var('a%'), var('b%'))]),
+             [P(S('big'))])],
+     None),
+    ('while', ('call', 'big%', [B('*', var('a%'), I(200))]),
+     [L(var('a%'), B('-', var('a%'), I(100))), P(S('w'))]),
+    P(S('done'))],
+   subs=[Sub('big%', 'function', [('x%', None)],
+             [('setret', B('>', var('x%'), I(9)))])],
+   family='control', pre='-2 <= x1 <= 5 and -3 <= x0 <= 150', budget=900)
 mk('if_long_cond', ['a&'],
    [('if', [(var('a&'), [P(S('t'))])], [P(S('f'))])], family='control')
 mk('for_up', ['a%', 'b%'],
@@ -454,6 +481,44 @@ mk('dbg_eval_main', ['a%', 'b&', 'i%'],
           ('outer', [('q', 'pt'), ('n%', None)])],
    pre='-30000 <= x0 <= 30000 and -2 <= x2 <= 4', family='dbgeval',
    budget=900)
+# arrays of rank 2 and 3 (with lower bounds), an array of records, a SHARED
+# array seen from a SUB and a dynamic array, elements read with SYMBOLIC
+# subscripts (out-of-range ones included)
+mk('dbg_eval_arrays', ['i%', 'j%', 'k%'],
+   [('for', var('x%'), I(0), I(1), None,
+     [('for', var('y%'), I(1), I(3), None,
+       [L(('idx', 'm&', [var('x%'), var('y%')]),
+          B('+', B('*', var('x%'), I(10)), var('y%'))),
+        ('for', var('z%'), I(0), I(2), None,
+         [L(('idx', 'c%', [var('x%'), var('y%'), var('z%')]),
+            B('+', B('+', B('*', var('x%'), I(100)),
+                     B('*', var('y%'), I(10))), var('z%'))),
+          L(('idx', 'd%', [var('x%'), var('y%'), var('z%')]),
+            B('+', B('+', B('*', var('x%'), I(100)),
+                     B('*', var('y%'), I(10))), B('+', var('z%'), I(1000))))
+          ])])]),
+    L(('fld', ('idx', 'r', [I(2)]), ['y'], '&'), LG(22)),
+    L(('fld', ('idx', 'r', [I(1)]), ['x'], '%'), I(11)),
+    P(('idx', 'm&', [var('i%'), var('j%')])),
+    P(('idx', 'c%', [var('i%'), var('j%'), var('k%')])),
+    P(('idx', 'd%', [var('i%'), var('j%'), var('k%')])),
+    P(('fld', ('idx', 'r', [var('j%')]), ['y'], '&')),
+    P(('fld', ('idx', 'r', [var('j%')]), ['x'], '%')),
+    P(B('+', ('idx', 'c%', [I(1), I(3), I(2)]),
+        ('idx', 'm&', [I(1), I(2)]))),
+    ('callsub', 'peekit', [var('i%'), var('j%'), var('k%')])],
+   head=[('dim', 'dim', [('m&', [(I(0), I(1)), (I(1), I(3))], None)]),
+         ('dim', 'shared', [('c%', [(I(0), I(1)), (I(1), I(3)),
+                                    (I(0), I(2))], None)]),
+         L(var('n%'), I(2)),
+         ('dim', 'dim', [('d%', [(I(0), I(1)), (I(1), I(3)),
+                                 (I(0), var('n%'))], None)]),
+         ('dim', 'dim', [('r', [(I(1), I(2))], 'pt')])],
+   subs=[Sub('peekit', 'sub', [('a%', None), ('b%', None), ('c2%', None)],
+             [P(('idx', 'c%', [var('a%'), var('b%'), var('c2%')]))])],
+   types=[('pt', [('x%', None), ('y&', None)])],
+   pre='-1 <= x0 <= 2 and 0 <= x1 <= 4 and -1 <= x2 <= 3', family='dbgeval',
+   budget=3000)
 mk('dbg_eval_str', ['s$', 't$'],
    [L(('idx', 'n$', [I(1)]), var('t$')),
     P(var('s$')), P(B('+', var('s$'), S('!'))), P(('idx', 'n$', [I(1)])),
@@ -486,3 +551,30 @@ mk('dbg_eval_procs', ['a%', 'n%'],
               P(var('mine%'))])],
    pre='-30000 <= x0 <= 30000 and 0 <= x1 <= 2', family='dbgeval',
    budget=1500)
+
+# two arrays of the SAME record type with different extents, the smaller one
+# declared (and sized) first, followed by further variables: every location
+# written with a sentinel, one element overwritten through a SYMBOLIC index
+mk('stor_two_record_arrays', ['i%', 'v%'],
+   [L(('fld', ('idx', 'pa', [I(0)]), ['x'], '%'), I(10)),
+    L(('fld', ('idx', 'pa', [I(1)]), ['y'], '&'), LG(11)),
+    L(('fld', ('idx', 'pb', [I(0)]), ['x'], '%'), I(20)),
+    L(('fld', ('idx', 'pb', [I(2)]), ['x'], '%'), I(22)),
+    L(('fld', ('idx', 'pb', [I(3)]), ['x'], '%'), I(23)),
+    L(('fld', ('idx', 'pb', [I(3)]), ['y'], '&'), LG(24)),
+    L(var('k%'), I(30)), L(var('m&'), LG(31)),
+    L(('fld', ('idx', 'pb', [var('i%')]), ['y'], '&'), var('v%')),
+    P(('fld', ('idx', 'pa', [I(0)]), ['x'], '%'), ';',
+      ('fld', ('idx', 'pa', [I(1)]), ['y'], '&'), ';',
+      ('fld', ('idx', 'pb', [I(0)]), ['x'], '%'), ';',
+      ('fld', ('idx', 'pb', [I(2)]), ['x'], '%'), ';',
+      ('fld', ('idx', 'pb', [I(2)]), ['y'], '&'), ';',
+      ('fld', ('idx', 'pb', [I(3)]), ['x'], '%'), ';',
+      ('fld', ('idx', 'pb', [I(3)]), ['y'], '&'), ';',
+      var('k%'), ';', var('m&'))],
+   head=[('dim', 'dim', [('pa', [(I(0), I(1))], 'pt')]),
+         ('dim', 'dim', [('pb', [(I(0), I(3))], 'pt')]),
+         ('dim', 'dim', [('k%', None, None)]),
+         ('dim', 'dim', [('m&', None, None)])],
+   types=[('pt', [('x%', None), ('y&', None)])],
+   family='storage', pre='-1 <= x0 <= 5')
